@@ -316,3 +316,56 @@ fn uninterned_check(shared: bool) {
         _ => assert!(false),
     }
 }
+
+// ------------------------------------------------------------------ optional (start, end) bounds of vector primitives (C07)
+fn rest_of(n: usize, a: isize, b: isize) -> RestArgsIter<'static, isize> {
+    RestArgsIter { items: [Some(Ok(a)), Some(Ok(b)), Some(Ok(0))], pos: 0, n, _p: core::marker::PhantomData }
+}
+
+fn bounds_spec(r: Result<(usize, usize)>, n: usize, a: isize, b: isize, len: usize) {
+    if n > 2 {
+        assert!(matches!(r, Err(e) if e.kind == ErrorKind::ArityMismatch));
+        return;
+    }
+    let start = if n >= 1 { a } else { 0 };
+    let end = if n >= 2 { b } else { len as isize };
+    let bad = start < 0 || end < 0 || end as usize > len || start > end;
+    match r {
+        Ok((s, e)) => {
+            assert!(!bad, "an out-of-range (start, end) pair was accepted: the caller slices with it");
+            assert!(s as isize == start && e as isize == end && s <= e && e <= len);
+        }
+        Err(e) => assert!(bad && e.kind == ErrorKind::ContractViolation),
+    }
+}
+
+#[kani::proof]
+#[kani::unwind(6)]
+fn bounds_mut_contract() {
+    let arr = [SteelVal::Void, SteelVal::Void, SteelVal::Void, SteelVal::Void];
+    let len: usize = kani::any();
+    kani::assume(len <= 4);
+    let n: usize = kani::any();
+    kani::assume(n <= 3);
+    let a: isize = kani::any();
+    let b: isize = kani::any();
+    let r = bounds_mut(rest_of(n, a, b), "vector-copy!", 4, &arr[..len]);
+    bounds_spec(r, n, a, b, len);
+}
+
+#[kani::proof]
+#[kani::unwind(6)]
+fn bounds_contract() {
+    let shorter: bool = kani::any();
+    let mut v = vec2();
+    if shorter {
+        v.pop_back();
+    }
+    let len = v.len();
+    let n: usize = kani::any();
+    kani::assume(n <= 3);
+    let a: isize = kani::any();
+    let b: isize = kani::any();
+    let r = bounds(rest_of(n, a, b), "vector-copy", 4, &v);
+    bounds_spec(r, n, a, b, len);
+}
